@@ -58,7 +58,14 @@ def _get_unmarshaller(  # type: ignore[return]
     context: routines.ContextT,
 ) -> routines.AbstractUnmarshaller[T]:
     if node.type in context:
-        return context[node.type]
+        routine = context[node.type]
+        # A delayed routine only stands in for a type until the type itself is reached.
+        if node.cyclic or not isinstance(routine, DelayedUnmarshaller):
+            return routine
+
+    # A revisited type which isn't resolved yet closes a cycle, resolve it at call-time.
+    if node.cyclic and not inspection.isforwardref(node.unwrapped):
+        return DelayedUnmarshaller(node.unwrapped, context=context, var=node.var)
 
     for check, unmarshaller_cls in _HANDLERS.items():
         if check(node.unwrapped):
